@@ -107,10 +107,9 @@ func main() {
 	}
 
 	t0 := time.Now()
-	archs := []string{"amd64"}
-	if *tier == "thorough" {
-		archs = append(archs, "386")
-	}
+	// both word sizes in both tiers: BigInt's inline representation has two words on 64-bit and four on
+	// 32-bit builds, and code that is dead on one is live on the other
+	archs := []string{"amd64", "386"}
 	var worlds []*World
 	for _, a := range archs {
 		w, err := loadWorld(*repo, a)
